@@ -449,6 +449,9 @@ var punctuationMappings = map[rune]string{
 	'–': "-",
 	'—': "-",
 	'‐': "-",
+	'‑': "-", // U+2011 non-breaking hyphen
+	'―': "-", // U+2015 horizontal bar
+	'−': "-", // U+2212 minus sign
 	'©': "(c)",
 	'§': "(s)",
 	'¤': "(s)",
